@@ -1,6 +1,5 @@
 # C04 — Lancero ingest: frame alignment, channel order, err/fb pairing, external triggers
-CLAIMED = False
-NOT_YET = "check under construction (nothing is claimed for it yet)"
+CLAIMED = True
 
 CFG = dict(
     rule="two kinds of case, 1:4. (R) the real launchLanceroReader + getNextBlock + distributeData run against a scripted in-memory card "
@@ -32,11 +31,46 @@ CFG = dict(
 )
 
 MANIFEST = dict(
-    text="(under construction)",
+    text="Theorems over a transcription of FindFrameBits, the reader tick of launchLanceroReader (3-frame minimum, alignment test, "
+         "re-alignment, released vs consumed bytes, demultiplexing), updateChanOrderMap, MixRetardFb and distributeData, for ALL geometries "
+         "(>=1 column, >=2 rows), frame contents, mixer/counter states: (1) ffb_aligned_iff: on well-formed frames a buffer starting k words "
+         "into a frame gives q=F-k, p=q+F, n=ncols, so q=ncols*nrows iff aligned; (2) C04_chunking_independent: for EVERY schedule of reads "
+         "(shorter than 3 frames, not word/frame aligned, ...) the pipeline never panics or flags a drop, withholds fewer than 3 frames of "
+         "visible bytes, numbers blocks contiguously, and channel 2(c*rows+r)+e carries component e of word (r,c) of frames 0..N-1 exactly once in "
+         "order (the run-time oracle cleanRun holds of the model), feedback = mixSpec, triggers = edgeSpec; (3) readout_perm_bijective: the table "
+         "built by the transcribed loop is the column-major/row-major bijection; (4) C04_fb_retard_mix (+ sample form, + exact-arithmetic "
+         "saturation lemma): for every history of buffers and mix requests each feedback sample is the previous one with flag bits cleared plus "
+         "the scaled error of the same sample, saturated, independent of block cuts and mix-change time (float arithmetic abstract); "
+         "(5) C04_ext_trigger (+ index forms): counts = one per rising edge of the column-0 flag of the physical row, (first+f)*rows+row, for any "
+         "number of columns, state carried across blocks; (6) C04_frames_monotone: blocks numbered from the counter advanced by each loss "
+         "estimate, the estimate reported, never backwards for non-negative estimates, contiguous without loss; (7) C04_realign_partial / C04_realign_all_chunkings: a read "
+         "that starts inside a frame is flagged, released up to the next frame boundary and delivers whole frames, and for every schedule of reads the "
+         "first buffer after such a start is flagged and all buffers are whole frames in order; the full re-alignment statement "
+         "is shown false of the code by C04_realign_counterexample (known finding: loss in the middle of a read). The model is compared block for "
+         "block with the real launchLanceroReader/getNextBlock/distributeData (scripted in-memory card; direct buffer histories) on every run and "
+         "the real output is judged by the closed-form oracle.",
     note="Trusted: Lean 4.33 kernel (axioms propext, Classical.choice, Quot.sound only; audited every run); the hand-written model is tied "
-         "to the Go code only by differential testing with seeded generators (not a proof).",
+         "to the Go code only by differential testing with seeded generators (not a proof). Float arithmetic of the mixer is abstract in the "
+         "theorems and an IEEE-double mirror in the correspondence; the wall-clock dropped-frame estimate enters as the difference of scripted "
+         "time stamps; single card; lost byte ranges are whole words; StartRun's initial alignment is not covered. That the reader never "
+         "crashes on a stream with lost bytes is tested by the correspondence, not proved. Four defects found were repaired (fix: 66b4e17 "
+         "ext-trigger index, d7b1fb6 frame numbers after a drop, dbb8d0f reader panic on a lost first row, 2bf907d discarded buffer not "
+         "reported) and the theorems are about the repaired behaviour; one is a known finding (C04:gap-garbage-block).",
     technique="Lean 4 theorems over an executable model; model tied to the Go code by a differential correspondence run",
 )
 
 THEOREMS = [
+    ("DastardV.Props.C04", "DastardV.C04.ffb_aligned_iff"),
+    ("DastardV.Props.C04", "DastardV.C04.C04_chunking_independent"),
+    ("DastardV.Props.C04", "DastardV.C04.readout_perm_bijective"),
+    ("DastardV.Props.C04", "DastardV.C04.C04_fb_retard_mix"),
+    ("DastardV.Props.C04", "DastardV.C04.C04_fb_retard_mix_sample"),
+    ("DastardV.Props.C04", "DastardV.C04.C04_mix_exact_saturating"),
+    ("DastardV.Props.C04", "DastardV.C04.C04_ext_trigger"),
+    ("DastardV.Props.C04", "DastardV.C04.C04_ext_trigger_edges"),
+    ("DastardV.Props.C04", "DastardV.C04.C04_ext_trigger_items"),
+    ("DastardV.Props.C04", "DastardV.C04.C04_frames_monotone"),
+    ("DastardV.Props.C04", "DastardV.C04.C04_realign_partial"),
+    ("DastardV.Props.C04", "DastardV.C04.C04_realign_all_chunkings"),
+    ("DastardV.Props.C04", "DastardV.C04.C04_realign_counterexample"),
 ]
